@@ -104,7 +104,7 @@ Proof. exact vstep_rep_nt. Qed.
 Print Assumptions C01_step_every_list.
 
 (* ... and on a list WITHOUT a VaryingSize parameter no restriction is left at all: erase()
-   with elements behind the erased ones move-assigns them forward field by field
+   with elements behind the erased ones move-constructs them forward field by field
    (FixedErase.v: the loop invariant `linv` over the fixed stride, element j+k of the old list
    at slot j after step k), whatever the value types are.  nt_okx = (no VaryingSize) \/ nt_ok. *)
 Theorem C01_refinement_every_list_weaker_restriction : forall L cap budget fixed aid junk bid tbid h,
